@@ -221,6 +221,8 @@ def build(fam):
                    {"C04"}),
             Clause("ends-at-a-root", S0.par(s.a[s.n - 1]) == NONE, {"C04"}),
             Clause("every-ancestor-listed", ForAll([x], Implies(S0.A(x, n), s.a[S0.d(n) - S0.d(x)] == x)), {"C04"}),
+            Clause("later-elements-are-ancestors-of-earlier-ones",
+                   ForAll([i, j], Implies(And(0 <= i, i <= j, j < s.n), S0.A(s.a[j], s.a[i]))), {"C04"}),
         ]
     fam.add(Spec(fam, "iter_path_reverse", "method", [("self", "ref")], base_req, [
         Outcome("return", "return", ipr_post, res="iterseq", mods=()),
@@ -236,6 +238,8 @@ def build(fam):
             Clause("starts-at-a-root", S0.par(s.a[0]) == NONE, {"C04"}),
             Clause("each-is-the-parent-of-the-next", ForAll([j], Implies(in_range(j, s.n - 1), S0.par(s.a[j + 1]) == s.a[j])), {"C04"}),
             Clause("ends-at-self", s.a[s.n - 1] == n, {"C04"}),
+            Clause("earlier-elements-are-ancestors-of-later-ones",
+                   ForAll([i, j], Implies(And(0 <= i, i <= j, j < s.n), S0.A(s.a[i], s.a[j]))), {"C04"}),
         ]
     for nm in ("_path", "path"):
         fam.add(Spec(fam, nm, "getter", [("self", "ref")], base_req, [
